@@ -47,20 +47,18 @@ def load_known():
 
 
 def classify(prop, md, finding, known):
-    from sim import diagnose
+    """A violation is a known finding only if its property matches and the oracle's own diagnosis
+    (finding.detail.diag, computed from the observation by the oracle) names a listed open finding."""
+    diag = (finding.get("detail") or {}).get("diag")
+    if not diag:
+        return None
     for k in known.get("findings", []):
         if k.get("property") != prop or k.get("status", "open") != "open":
             continue
         if finding["oracle"] not in k.get("oracles", [finding["oracle"]]):
             continue
-        pred = getattr(diagnose, k["predicate"], None)
-        if pred is None:
-            continue
-        try:
-            if pred(prop, md, finding):
-                return k
-        except Exception:
-            continue
+        if k.get("diag") == diag:
+            return k
     return None
 
 
@@ -206,6 +204,22 @@ def main(argv=None):
                 print("  oracle=" + oracle + " steps=" + str(len(md["steps"])) + " detail=" + json.dumps(m["finding"]["detail"], default=str)[:600])
                 if rc == 0:
                     rc = 1
+    # known findings diagnosed by the oracles during the search: one line per listed finding, with a minimised replay
+    for kid, n in sorted(total.get("known", {}).items()):
+        known_hits[kid] = known_hits.get(kid, 0) + n
+        entry = [k for k in known.get("findings", []) if k["id"] == kid][0]
+        sample = total["known_samples"].get(kid)
+        path = os.path.join(VERIF, "replays", f"{prop}-known-{kid[:40]}.json")
+        try:
+            m = runner.fresh_call("worker_minimise", (prop, sample["desc"], sample["finding"], 150))
+            md = m["desc"] if m["finding"] is not None else sample["desc"]
+            fnd = m["finding"] or sample["finding"]
+        except Exception as e:
+            md, fnd = sample["desc"], sample["finding"]
+        with open(path, "w") as f:
+            json.dump({"format": 1, "property": prop, "oracle": fnd["oracle"], "finding": fnd, "descriptor": md,
+                       "pythonhashseed": 0, "library_rev": rev, "library_dirty": dirty, "classified": kid}, f, indent=1, default=str)
+        print(f"KNOWN-FINDING: property={prop} {kid}: {entry['text']} ({n} runs; replay={path})")
     unclassified_rest = sum(len(vs) for vs in seen_oracles.values()) - n_done
     write_evidence(prop, tier, seed, total, n_viol, known_hits, extra={"library_rev": rev, "library_dirty": dirty,
                    "violating_runs_seen": len(total["violations"]) + total["more_violations"],
